@@ -215,7 +215,7 @@ func runAccountCase(in *vp.Input, f *vp.Family, cs *vp.Case, junk []byte, absKey
 			continue
 		}
 		if ap.Inclusion { // the returned state IS the stored one
-			if want := vpState(cs.Hist[p.Ri-1][p.Key]); !proto.Equal(ap.State, want) {
+			if want := vpState(cs.Hist[p.Ri-1][p.Key]); cs.Hist[p.Ri-1][p.Key] != "" && !proto.Equal(ap.State, want) {
 				rep.Violate(map[string]interface{}{"kind": "generator-wrong-claim", "level": env.Level, "enc": p.Enc}, rp, "state %v returned, stored %v", ap.State, want)
 				continue
 			}
@@ -347,9 +347,13 @@ func runVarCase(in *vp.Input, f *vp.Family, cs *vp.Case, junk []byte, absKeys []
 			am := m.Clone()
 			am.Root = stateRoot
 			if ok, _ := vpRealAccept(am); ok {
+				extra := ""
+				if probe, err := qdb.GetVarAndProof(aid[:], nil, comp); err == nil && probe.Inclusion {
+					extra = fmt.Sprintf("; asked for the contract's own account id as variable key it returns Inclusion=true with the %d-byte marshalled account state as the variable's value", len(probe.Value))
+				}
 				rep.Violate(map[string]interface{}{"kind": "var-proof-from-account-trie", "storage": "empty", "level": env.Level}, rp,
-					"GetVarAndProof(key, <empty storage root>, %v) answers from the account trie: the returned proof (incl=%v, proofKey=%x, %d siblings) verifies against the state root %x, not against the contract's storage root",
-					comp, vpf.Inclusion, vpf.ProofKey, len(vpf.AuditPath), stateRoot)
+					"GetVarAndProof(key, <empty storage root>, %v) answers from the account trie: the returned proof (incl=%v, proofKey=%x, %d siblings) verifies against the state root %x, not against the contract's storage root%s",
+					comp, vpf.Inclusion, vpf.ProofKey, len(vpf.AuditPath), stateRoot, extra)
 				continue
 			}
 		}
